@@ -149,38 +149,109 @@ def PC.late9 : PC → Bool
   | .setupDecide | .setupIter _ | .afterSetup | .self2 | .afterSelf2 | .done => true
   | _ => false
 
-structure NG (inp : RunInput) (σ : Name → RS) (n : Name) (nd : Node) : Prop where
-  pt : ∀ d ∈ nd.pendTask, StageG inp σ n d
-  pcalc : ∀ d ∈ nd.pendCalc, CalcG inp σ n d
-  st : ∀ d ∈ nd.snapTask, StageG inp σ n d
-  sc : ∀ d ∈ nd.snapCalc, CalcG inp σ n d
-  wr : ∀ d ∈ nd.waitRun, StageG inp σ n d ∨ nd.pc.late9 = true
-  wc : ∀ d ∈ nd.waitRunCalc, CalcG inp σ n d
-  bd : ∀ p ∈ nd.bad, σ p = .fail ∧ (StageG inp σ n p ∨ nd.pc.late9 = true)
-  ig : ∀ p ∈ nd.ign, σ p = .ign ∧ (StageG inp σ n p ∨ nd.pc.late9 = true)
+/-! ### … and an upper bound that also counts what FAILED calc_deps delivered
 
-variable {inp : RunInput} [NoFailDeliver inp] {σ : Name → RS}
+`_process_calc_dep_results` reads `task.values` of a calc task whatever its status: a calc task whose execution failed
+still delivers what its actions returned before the failing one (`deliverF`, oracle `calcResFail`).  `CalcF` / `StageF`
+add those deliveries to `CalcG` / `StageG` (for every failed calc_dep, started or not: they are only used as an upper
+bound of the lists of an `ExecNode`, in `NG`).  Whatever they add hangs below a FAILED member of `CalcG`
+(`CalcF.cases`, `StageF.cases`), which is all the order invariant needs to know about them. -/
+
+inductive CalcF (inp : RunInput) (σ : Name → RS) (n : Name) : Name → Prop
+  | base {c : Name} : c ∈ inp.calcDep n → CalcF inp σ n c
+  | res {p c : Name} : CalcF inp σ n p → (σ p).good = true → c ∈ (inp.calcRes p).calcs → CalcF inp σ n c
+  | resF {p c : Name} : CalcF inp σ n p → σ p = .fail → c ∈ (inp.calcResFail p).calcs → CalcF inp σ n c
+
+def StageF (inp : RunInput) (σ : Name → RS) (n d : Name) : Prop :=
+  d ∈ inp.taskDep n ∨ CalcF inp σ n d ∨
+    ∃ p, CalcF inp σ n p ∧ (((σ p).good = true ∧ (d ∈ (inp.calcRes p).tasks ∨ d ∈ (inp.calcRes p).files)) ∨
+      (σ p = .fail ∧ (d ∈ (inp.calcResFail p).tasks ∨ d ∈ (inp.calcResFail p).files)))
+
+theorem CalcG.toF {inp : RunInput} {σ : Name → RS} {n c : Name} (h : CalcG inp σ n c) : CalcF inp σ n c := by
+  induction h with
+  | base h => exact .base h
+  | res _ hg hc ih => exact .res ih hg hc
+
+theorem StageG.toF {inp : RunInput} {σ : Name → RS} {n d : Name} (h : StageG inp σ n d) : StageF inp σ n d := by
+  rcases h with a | a | ⟨p, a, b, c⟩
+  · exact Or.inl a
+  · exact Or.inr (Or.inl a.toF)
+  · exact Or.inr (Or.inr ⟨p, a.toF, Or.inl ⟨b, c⟩⟩)
+
+/-- a member of `CalcF` is a member of `CalcG`, or some member of `CalcG` has failed -/
+theorem CalcF.cases {inp : RunInput} {σ : Name → RS} {n c : Name} (h : CalcF inp σ n c) :
+    CalcG inp σ n c ∨ ∃ p, CalcG inp σ n p ∧ σ p = .fail := by
+  induction h with
+  | base h => exact Or.inl (.base h)
+  | res _ hg hc ih =>
+    rcases ih with a | a
+    · exact Or.inl (.res a hg hc)
+    · exact Or.inr a
+  | resF _ hf _ ih =>
+    rcases ih with a | a
+    · exact Or.inr ⟨_, a, hf⟩
+    · exact Or.inr a
+
+theorem StageF.cases {inp : RunInput} {σ : Name → RS} {n d : Name} (h : StageF inp σ n d) :
+    StageG inp σ n d ∨ ∃ p, StageG inp σ n p ∧ σ p = .fail := by
+  rcases h with a | a | ⟨p, a, b⟩
+  · exact Or.inl (Or.inl a)
+  · rcases a.cases with x | ⟨q, x, y⟩
+    · exact Or.inl (Or.inr (Or.inl x))
+    · exact Or.inr ⟨q, Or.inr (Or.inl x), y⟩
+  · rcases a.cases with x | ⟨q, x, y⟩
+    · rcases b with ⟨b1, b2⟩ | ⟨b1, _⟩
+      · exact Or.inl (Or.inr (Or.inr ⟨p, x, b1, b2⟩))
+      · exact Or.inr ⟨p, Or.inr (Or.inl x), b1⟩
+    · exact Or.inr ⟨q, Or.inr (Or.inl x), y⟩
+
+theorem CalcF.mono {inp : RunInput} {σ σ' : Name → RS} {n c : Name}
+    (hs : ∀ x, (σ x).finished = true → σ' x = σ x) (h : CalcF inp σ n c) : CalcF inp σ' n c := by
+  induction h with
+  | base h => exact .base h
+  | res _ hg hc ih => exact .res ih (by rw [hs _ (RS.good_finished hg)]; exact hg) hc
+  | resF _ hf hc ih => exact .resF ih (by rw [hs _ (by rw [hf]; rfl)]; exact hf) hc
+
+theorem StageF.mono {inp : RunInput} {σ σ' : Name → RS} {n d : Name}
+    (hs : ∀ x, (σ x).finished = true → σ' x = σ x) (h : StageF inp σ n d) : StageF inp σ' n d := by
+  rcases h with a | a | ⟨p, a, b⟩
+  · exact Or.inl a
+  · exact Or.inr (Or.inl (a.mono hs))
+  · refine Or.inr (Or.inr ⟨p, a.mono hs, ?_⟩)
+    rcases b with ⟨b1, b2⟩ | ⟨b1, b2⟩
+    · exact Or.inl ⟨by rw [hs _ (RS.good_finished b1)]; exact b1, b2⟩
+    · exact Or.inr ⟨by rw [hs _ (by rw [b1]; rfl)]; exact b1, b2⟩
+
+structure NG (inp : RunInput) (σ : Name → RS) (n : Name) (nd : Node) : Prop where
+  pt : ∀ d ∈ nd.pendTask, StageF inp σ n d
+  pcalc : ∀ d ∈ nd.pendCalc, CalcF inp σ n d
+  st : ∀ d ∈ nd.snapTask, StageF inp σ n d
+  sc : ∀ d ∈ nd.snapCalc, CalcF inp σ n d
+  wr : ∀ d ∈ nd.waitRun, StageF inp σ n d ∨ nd.pc.late9 = true
+  wc : ∀ d ∈ nd.waitRunCalc, CalcF inp σ n d
+  bd : ∀ p ∈ nd.bad, σ p = .fail ∧ (StageF inp σ n p ∨ nd.pc.late9 = true)
+  ig : ∀ p ∈ nd.ign, σ p = .ign ∧ (StageF inp σ n p ∨ nd.pc.late9 = true)
+
+variable {inp : RunInput} {σ : Name → RS}
 
 theorem NG.mono {σ' : Name → RS} {n : Name} {nd : Node} (h : NG inp σ n nd)
     (hs : ∀ x, (σ x).finished = true → σ' x = σ x) : NG inp σ' n nd := by
-  have hm : ∀ p, CalcG inp σ n p → CalcG inp σ' n p → (σ p).good = true → (σ' p).good = true := by
-    intro p _ _ hg; rw [hs p (RS.good_finished hg)]; exact hg
   have hf : ∀ p, σ p = .fail → σ' p = .fail := fun p e => by rw [hs p (by rw [e]; rfl)]; exact e
   have hi : ∀ p, σ p = .ign → σ' p = .ign := fun p e => by rw [hs p (by rw [e]; rfl)]; exact e
-  refine ⟨fun d hd => (h.pt d hd).mono hm, fun d hd => (h.pcalc d hd).mono hm, fun d hd => (h.st d hd).mono hm,
-    fun d hd => (h.sc d hd).mono hm, ?_, fun d hd => (h.wc d hd).mono hm, ?_, ?_⟩
+  refine ⟨fun d hd => (h.pt d hd).mono hs, fun d hd => (h.pcalc d hd).mono hs, fun d hd => (h.st d hd).mono hs,
+    fun d hd => (h.sc d hd).mono hs, ?_, fun d hd => (h.wc d hd).mono hs, ?_, ?_⟩
   · intro d hd; rcases h.wr d hd with a | a
-    · exact Or.inl (a.mono hm)
+    · exact Or.inl (a.mono hs)
     · exact Or.inr a
   · intro p hp; obtain ⟨a, b⟩ := h.bd p hp
     refine ⟨hf p a, ?_⟩
     rcases b with b | b
-    · exact Or.inl (b.mono hm)
+    · exact Or.inl (b.mono hs)
     · exact Or.inr b
   · intro p hp; obtain ⟨a, b⟩ := h.ig p hp
     refine ⟨hi p a, ?_⟩
     rcases b with b | b
-    · exact Or.inl (b.mono hm)
+    · exact Or.inl (b.mono hs)
     · exact Or.inr b
 
 /-! ### node-level lemmas -/
@@ -200,18 +271,20 @@ theorem NG.setPc {n : Name} {nd : Node} (h : NG inp σ n nd) (pc' : PC)
   · intro p hp; obtain ⟨a, b⟩ := h.ig p hp
     exact ⟨a, b.imp id hm⟩
 
-theorem addDeps_ng {n p : Name} {nd : Node} (h : NG inp σ n nd) (hp : CalcG inp σ n p) (hg : (σ p).good = true) :
-    NG inp σ n (nd.addDeps (inp.calcRes p)) := by
-  have nt : ∀ d ∈ newTaskDeps nd (inp.calcRes p), StageG inp σ n d := by
+/-- new dependencies from a calc result all of whose members are accounted for -/
+theorem addDeps_ngR {n : Name} {nd : Node} {r : CalcRes} (h : NG inp σ n nd)
+    (ht : ∀ d, (d ∈ r.tasks ∨ d ∈ r.files) → StageF inp σ n d) (hc : ∀ d ∈ r.calcs, CalcF inp σ n d) :
+    NG inp σ n (nd.addDeps r) := by
+  have nt : ∀ d ∈ newTaskDeps nd r, StageF inp σ n d := by
     intro d hd
     simp only [newTaskDeps, List.mem_append] at hd
     rcases hd with a | a
-    · exact Or.inr (Or.inr ⟨p, hp, hg, Or.inl a⟩)
-    · exact Or.inr (Or.inr ⟨p, hp, hg, Or.inr (implicitNew_mem a)⟩)
-  have nc : ∀ d ∈ newCalcDeps nd (inp.calcRes p), CalcG inp σ n d := by
+    · exact ht d (Or.inl a)
+    · exact ht d (Or.inr (implicitNew_mem a))
+  have nc : ∀ d ∈ newCalcDeps nd r, CalcF inp σ n d := by
     intro d hd
     simp only [newCalcDeps, List.mem_filter] at hd
-    exact .res hp hg (mem_dedup.mp hd.1)
+    exact hc d (mem_dedup.mp hd.1)
   refine ⟨?_, ?_, h.st, h.sc, h.wr, h.wc, h.bd, h.ig⟩
   · intro d hd; simp only [Node.addDeps, List.mem_append] at hd
     rcases hd with a | a
@@ -222,14 +295,25 @@ theorem addDeps_ng {n p : Name} {nd : Node} (h : NG inp σ n nd) (hp : CalcG inp
     · exact h.pcalc d a
     · exact nc d a.1
 
-theorem deliver_ng {n p : Name} {nd : Node} (pst : RS) (h : NG inp σ n nd) (hp : CalcG inp σ n p)
+theorem deliver_ng {n p : Name} {nd : Node} (pst : RS) (h : NG inp σ n nd) (hp : CalcF inp σ n p)
     (hpst : pst = σ p) : NG inp σ n (deliver inp pst p nd) := by
   unfold deliver; split
-  · rename_i hg; exact addDeps_ng h hp (hpst ▸ hg)
+  · rename_i hg
+    have hg' : (σ p).good = true := hpst ▸ hg
+    exact addDeps_ngR h (fun d hd => Or.inr (Or.inr ⟨p, hp, Or.inl ⟨hg', hd⟩⟩)) (fun d hd => .res hp hg' hd)
+  · exact h
+
+/-- what a FAILED calc_dep delivers (`deliverF`) is accounted for by `CalcF.resF` / the fail branch of `StageF` -/
+theorem deliverF_ng {n p : Name} {nd : Node} (ex : Bool) (pst : RS) (h : NG inp σ n nd) (hp : CalcF inp σ n p)
+    (hpst : pst = σ p) : NG inp σ n (deliverF inp ex pst p nd) := by
+  unfold deliverF; split
+  · rename_i hg
+    have hf : σ p = .fail := hpst ▸ hg.1
+    exact addDeps_ngR h (fun d hd => Or.inr (Or.inr ⟨p, hp, Or.inr ⟨hf, hd⟩⟩)) (fun d hd => .resF hp hf hd)
   · exact h
 
 theorem parentStatus_ng {n p : Name} {nd : Node} (pst : RS) (h : NG inp σ n nd) (hpst : pst = σ p)
-    (hd : StageG inp σ n p ∨ nd.pc.late9 = true) : NG inp σ n (parentStatus pst p nd) := by
+    (hd : StageF inp σ n p ∨ nd.pc.late9 = true) : NG inp σ n (parentStatus pst p nd) := by
   refine ⟨h.pt, h.pcalc, h.st, h.sc, h.wr, h.wc, ?_, ?_⟩
   · intro x hx
     simp only [parentStatus] at hx
@@ -249,30 +333,30 @@ theorem parentStatus_ng {n p : Name} {nd : Node} (pst : RS) (h : NG inp σ n nd)
     · exact h.ig x hx
 
 theorem absorbDone_ng_calc {s : Sys} {n : Name} (hσ : ∀ d, stOf s d = σ d) :
-    ∀ (ds : List Name) (nd : Node), NG inp σ n nd → (∀ d ∈ ds, CalcG inp σ n d) →
+    ∀ (ds : List Name) (nd : Node), NG inp σ n nd → (∀ d ∈ ds, CalcF inp σ n d) →
       NG inp σ n (absorbDone inp s true ds nd) := by
   intro ds
   induction ds with
   | nil => intro nd h _; exact h
   | cons a t ih =>
     intro nd h hds
-    simp only [absorbDone, deliverF_id]
+    simp only [absorbDone]
     have ha := hds a (by simp)
     split
     · exact ih nd h (fun d hd => hds d (by simp [hd]))
     · apply ih _ _ (fun d hd => hds d (by simp [hd]))
       simp only [if_true]
-      exact deliver_ng _ (parentStatus_ng _ h (hσ a) (Or.inl (Or.inr (Or.inl ha)))) ha (hσ a)
+      exact deliverF_ng _ _ (deliver_ng _ (parentStatus_ng _ h (hσ a) (Or.inl (Or.inr (Or.inl ha)))) ha (hσ a)) ha (hσ a)
 
 theorem absorbDone_ng_plain {s : Sys} {n : Name} (lt : Bool) (hσ : ∀ d, stOf s d = σ d) :
     ∀ (ds : List Name) (nd : Node), NG inp σ n nd → nd.pc.late9 = lt →
-      (∀ d ∈ ds, StageG inp σ n d ∨ lt = true) → NG inp σ n (absorbDone inp s false ds nd) := by
+      (∀ d ∈ ds, StageF inp σ n d ∨ lt = true) → NG inp σ n (absorbDone inp s false ds nd) := by
   intro ds
   induction ds with
   | nil => intro nd h _ _; exact h
   | cons a t ih =>
     intro nd h hlt hds
-    simp only [absorbDone, deliverF_id]
+    simp only [absorbDone]
     have ha := hds a (by simp)
     split
     · exact ih nd h hlt (fun d hd => hds d (by simp [hd]))
@@ -285,7 +369,7 @@ theorem addWaits_pc (nd : Node) (c : Bool) (wf : List Name) : (addWaits nd c wf)
 
 theorem waitNode_ng {s : Sys} {n : Name} {nd : Node} (ds : List Name) (isCalc : Bool) (pc' : PC)
     (hσ : ∀ d, stOf s d = σ d) (h : NG inp σ n nd)
-    (hds : ∀ d ∈ ds, if isCalc = true then CalcG inp σ n d else (StageG inp σ n d ∨ nd.pc.late9 = true))
+    (hds : ∀ d ∈ ds, if isCalc = true then CalcF inp σ n d else (StageF inp σ n d ∨ nd.pc.late9 = true))
     (hm : nd.pc.late9 = true → pc'.late9 = true) :
     NG inp σ n (waitNode inp s nd ds isCalc pc') := by
   have hpc : (absorbDone inp s isCalc ds nd).pc = nd.pc := (absorbDone_spec inp s isCalc ds nd).1.pc
@@ -381,7 +465,7 @@ theorem genStep_ng {s : Sys} {n : Name} {nd : Node} (d : Name) (pc' : PC) (h : A
 
 theorem addWaitRun_ng {s : Sys} {n : Name} {nd : Node} (ds : List Name) (c : Bool) (pc' : PC)
     (hσ : ∀ d, stOf s d = σ d) (h : AllNG inp σ s) (hn : s.nodes n = some nd)
-    (hds : ∀ d ∈ ds, if c = true then CalcG inp σ n d else (StageG inp σ n d ∨ nd.pc.late9 = true))
+    (hds : ∀ d ∈ ds, if c = true then CalcF inp σ n d else (StageF inp σ n d ∨ nd.pc.late9 = true))
     (hm : nd.pc.late9 = true → pc'.late9 = true) :
     AllNG inp σ (addWaitRun inp s n nd ds c pc') := by
   unfold addWaitRun
@@ -484,10 +568,18 @@ theorem dtick_ng {s s' : Sys} {perm : List Name} (hσ : ∀ d, stOf s d = σ d) 
         · split at hs <;> (cases hs; exact h)
         · cases hs; exact h
 
+theorem wokenF_ng {s : Sys} {n p : Name} {nd : Node} (pst : RS) (h : NG inp σ n nd)
+    (hnc : wakeCrash p nd = false) (hpst : pst = σ p) : NG inp σ n (wokenF inp s pst p nd) := by
+  have a := wokenNode_ng (inp := inp) pst h hnc hpst
+  unfold wokenF; split
+  · rename_i hc
+    exact deliverF_ng _ _ a (h.wc p hc) hpst
+  · exact a
+
 theorem wakeOne_ng {s : Sys} {pst : RS} {p w : Name} {nd : Node} (h : AllNG inp σ s) (hw : s.nodes w = some nd)
     (hnc : wakeCrash p nd = false) (hpst : pst = σ p) : AllNG inp σ (wakeOne inp s pst p w nd) := by
-  have := ng_setNode h (wokenNode_ng (inp := inp) pst (h w nd hw) hnc hpst)
-  rw [wakeOne_eq]; split
+  have := ng_setNode h (wokenF_ng (inp := inp) (s := s) pst (h w nd hw) hnc hpst)
+  unfold wakeOne; split
   · intro k y hk; exact this k y hk
   · exact this
 
